@@ -1020,6 +1020,10 @@ void QXmppTransferManager::ibbDataIqReceived(const QXmppIbbDataIq &iq)
         response.setType(QXmppIq::Error);
         response.setError(error);
         client()->sendPacket(response);
+
+        // XEP-0047: an out-of-sequence packet invalidates the session, neither
+        // it nor any packet that follows may be processed
+        job->terminate(QXmppTransferJob::ProtocolError);
         return;
     }
 
